@@ -17,9 +17,13 @@ CFG = """SPECIFICATION Spec
 CONSTANTS
   Dims = {%s}
   Solvers_ = {"lu", "lu_factors", "gmres", "cg"}
+  DualDims = {2}
+  SliceBy = "global"
+  SwapBlockedSettings = FALSE
   EmitJson = TRUE
 INVARIANT RhsLayout
 INVARIANT SolutionLayout
+INVARIANT SettingsHandedOn
 INVARIANT ReturnShape
 INVARIANT Emit
 CHECK_DEADLOCK FALSE
@@ -55,6 +59,11 @@ def body():
         chk.violation("spec:" + str(res.violated), "TLC: Solvers violates %s" % res.violated, {"trace": res.trace[-1:]})
         return chk.finish()
     chk.require_coverage(res, ["Pack", "Solve", "Unpack", "Return"])
+    for cfgname, inv in (("Solvers_neg_slice.cfg", "SolutionLayout"), ("Solvers_neg_settings.cfg", "SettingsHandedOn")):
+        neg = common.run_tlc("Solvers", cfgname, timeout=1200)
+        chk.add_tlc("Solvers negative configuration %s" % cfgname, neg, note="must violate %s" % inv)
+        if neg.ok or inv not in str(neg.violated):
+            raise common.MachineryError("negative configuration %s: expected a violation of %s, got %s" % (cfgname, inv, neg.violated))
     V = np.array([[0, 0, 0], [1, 0, 0], [0, 2, 0], [1, 2, 0], [0, 0, 3], [1, 0, 3], [0, 2, 3], [1, 2, 3]], dtype=float).T
     E = (np.array([[1, 4, 2], [1, 3, 4], [5, 6, 7], [6, 8, 7], [1, 2, 5], [2, 6, 5], [3, 8, 4], [3, 7, 8], [1, 7, 3], [1, 5, 7], [2, 4, 6], [4, 8, 6]]) - 1).T
     g = api.Grid(V, E)
